@@ -23,10 +23,17 @@ CACHE = os.path.join(R.ROOT, ".cache")
 def run_witness(unit, seed=0, only=None):
     """returns list of failing inputs (dicts); raises Infra when the witness cannot be built/run"""
     wpath = os.path.join(unit["dir"], "witness.rs")
+    if unit.get("witness_from"):   # several units over the same function share one executable postcondition
+        wpath = os.path.join(os.path.dirname(unit["dir"]), unit["witness_from"], "witness.rs")
     if not os.path.exists(wpath) or "witness_target" not in unit:
         return None
     os.makedirs(CACHE, exist_ok=True)
-    dst = f"/var/tmp/rooc-witness.{os.getpid()}.{re.sub(r'[^A-Za-z0-9]', '_', unit['name'])}"
+    # One witness run at a time, always in the SAME scratch path: the cargo target directory is shared between runs (build time),
+    # and cargo identifies the package by its path; different paths with the same package name confuse its freshness check.
+    import fcntl, hashlib
+    lk = open(os.path.join(CACHE, "witness.lock"), "w")
+    fcntl.flock(lk, fcntl.LOCK_EX)
+    dst = "/var/tmp/rooc-witness." + hashlib.sha1(R.ROOT.encode()).hexdigest()[:10]
     if os.path.exists(dst):
         shutil.rmtree(dst)
     shutil.copytree(os.path.join(R.REPO, "packages/rooc"), dst, ignore=shutil.ignore_patterns("target", ".git", "node_modules"))
@@ -65,3 +72,5 @@ def run_witness(unit, seed=0, only=None):
         return {"fails": fails, "cases": cases, "cmd": "(in scratch copy) " + " ".join(cmd)}
     finally:
         shutil.rmtree(dst, ignore_errors=True)
+        fcntl.flock(lk, fcntl.LOCK_UN)
+        lk.close()
